@@ -353,3 +353,130 @@ func forHeader(info *types.Info, f *ast.ForStmt) (types.Object, string, string, 
 	unit := ok && inc.Tok == token.INC && useObj(info, inc.X) == v
 	return v, types.ExprString(as.Rhs[0]), types.ExprString(be.Y), unit
 }
+
+// C11.R1d — "unknown … field id" is a run error only if the search for the requested plot in the polygon file
+// reports a miss: the read loop ends at end of file without a match, and unless that is turned into an error the
+// run goes on with an empty soil description (zero layers) and the initialisation indexes below the arrays —
+// a panic in the run goroutine ends the whole batch.
+func c11PlotLookup(p *Prog, r *Report) {
+	r.Rule("C11.R1d", "the search for the requested plot number in the polygon file reports a miss as a run error: a flag that is false before the read loop and set in the arm that matches the plot number is tested right after the loop, and the run returns an error when it is still false (or the matching arm returns and the code after the loop returns an error)", 1)
+	in := p.Funcs["hermes.Input"]
+	if in == nil {
+		r.Ob("plot-search", "-", false, "hermes.Input not found")
+		return
+	}
+	info := in.Pkg.TypesInfo
+	var arm *ast.IfStmt
+	ast.Inspect(in.Decl.Body, func(n ast.Node) bool {
+		ifs, ok := n.(*ast.IfStmt)
+		if !ok || arm != nil {
+			return true
+		}
+		be, ok := stripParens(ifs.Cond).(*ast.BinaryExpr)
+		if !ok || be.Op != token.EQL {
+			return true
+		}
+		for _, side := range []ast.Expr{be.X, be.Y} {
+			if sel, ok := stripParens(side).(*ast.SelectorExpr); ok && sel.Sel.Name == "SLNR" {
+				arm = ifs
+			}
+		}
+		return true
+	})
+	if arm == nil {
+		r.Ob("plot-search", p.Pos(in.Decl.Pos()), false, "no comparison with the requested plot number found in Input")
+		return
+	}
+	path := nodePath(in.Decl.Body, arm)
+	var loop ast.Stmt
+	var block *ast.BlockStmt
+	for i := len(path) - 1; i >= 0 && loop == nil; i-- {
+		switch path[i].(type) {
+		case *ast.ForStmt, *ast.RangeStmt:
+			loop = path[i].(ast.Stmt)
+			if i > 0 {
+				block, _ = path[i-1].(*ast.BlockStmt)
+			}
+		}
+	}
+	if loop == nil || block == nil {
+		r.Ob("plot-search", p.Pos(arm.Pos()), false, "the comparison with the plot number is not inside a read loop")
+		return
+	}
+	idx := -1
+	for i, st := range block.List {
+		if st == loop {
+			idx = i
+		}
+	}
+	returnsError := func(b *ast.BlockStmt) bool {
+		for _, st := range b.List {
+			if rs, ok := st.(*ast.ReturnStmt); ok && len(rs.Results) >= 1 {
+				last := rs.Results[len(rs.Results)-1]
+				if tv, ok := info.Types[last]; ok && !tv.IsNil() && types.Implements(tv.Type, errorType.Underlying().(*types.Interface)) {
+					return true
+				}
+			}
+		}
+		return false
+	}
+	ok, det := false, "nothing after the read loop tests whether the plot was found: a plot number that is not in the polygon file leaves the soil description empty"
+	// flags set to true at the top level of the matching arm
+	flags := map[types.Object]bool{}
+	for _, st := range arm.Body.List {
+		if as, isAs := st.(*ast.AssignStmt); isAs && len(as.Lhs) == 1 && len(as.Rhs) == 1 {
+			if tv, has := info.Types[as.Rhs[0]]; has && tv.Value != nil && tv.Value.String() == "true" {
+				if o := useObj(info, as.Lhs[0]); o != nil {
+					flags[o] = true
+				}
+			}
+		}
+	}
+	if idx >= 0 && idx+1 < len(block.List) {
+		if after, isIf := block.List[idx+1].(*ast.IfStmt); isIf && after.Init == nil {
+			if ue, isU := stripParens(after.Cond).(*ast.UnaryExpr); isU && ue.Op == token.NOT && flags[useObj(info, ue.X)] && returnsError(after.Body) {
+				flag := useObj(info, ue.X)
+				// false before the loop, assigned nowhere else
+				start := false
+				for i := idx - 1; i >= 0 && !start; i-- {
+					for _, d := range defsOf(info, block.List[i], flag) {
+						if d.Rhs != nil {
+							if tv, has := info.Types[d.Rhs]; has && tv.Value != nil && tv.Value.String() == "false" {
+								start = true
+							}
+						}
+					}
+					if ds, isDecl := block.List[i].(*ast.DeclStmt); isDecl {
+						ast.Inspect(ds, func(n ast.Node) bool {
+							if vs, isV := n.(*ast.ValueSpec); isV && len(vs.Values) == 0 {
+								for _, nm := range vs.Names {
+									if info.Defs[nm] == flag {
+										start = true
+									}
+								}
+							}
+							return true
+						})
+					}
+				}
+				n := len(defsOf(info, in.Decl.Body, flag))
+				if start && n == 2 {
+					ok, det = true, "flag false before the loop, set in the matching arm, tested right after the loop with an error return"
+				} else {
+					det = fmt.Sprintf("the found-flag is assigned %d times (expected: false before the loop, true in the matching arm)", n)
+				}
+			}
+		}
+		if !ok {
+			// alternative: the matching arm returns, the statement after the loop returns an error
+			if l := len(arm.Body.List); l > 0 {
+				if _, isRet := arm.Body.List[l-1].(*ast.ReturnStmt); isRet {
+					if rs, isR := block.List[idx+1].(*ast.ReturnStmt); isR && returnsError(&ast.BlockStmt{List: []ast.Stmt{rs}}) {
+						ok, det = true, "the matching arm returns; the code after the loop returns an error"
+					}
+				}
+			}
+		}
+	}
+	r.Ob("plot-search:miss-reported", p.Pos(loop.Pos()), ok, det)
+}
